@@ -94,6 +94,7 @@ func c01Signature(src []byte) (string, []byte) {
 type layoutCandidate struct {
 	name     string
 	from, to int // line range (inclusive) of the comment that constitutes the situation
+	col      int // > 0: only the text from this column on of line "from" is the comment
 }
 
 // commentOnlyLines marks the lines that hold nothing but comment text.
@@ -150,7 +151,7 @@ func c01LayoutCandidates(src []byte) []layoutCandidate {
 		switch {
 		case strings.HasPrefix(next, ")") && ci <= ni:
 			// an own-line comment directly before a closing ")" that gofmt leaves unindented
-			cs = append(cs, layoutCandidate{"comment-before-rparen-unindented", i, j - 1})
+			cs = append(cs, layoutCandidate{"comment-before-rparen-unindented", i, j - 1, 0})
 		case (strings.HasPrefix(next, "case ") || strings.HasPrefix(next, "default:")) && ni < ci:
 			// a comment at body indentation directly before the next case / default clause, where
 			// the clause body ends in a continuation line of a multi-line statement (indented
@@ -161,10 +162,30 @@ func c01LayoutCandidates(src []byte) []layoutCandidate {
 				p--
 			}
 			if p >= 0 && indentOf(lines[p]) > ci {
-				cs = append(cs, layoutCandidate{"hanging-comment-before-case-after-multiline-statement", i, j - 1})
+				cs = append(cs, layoutCandidate{"hanging-comment-before-case-after-multiline-statement", i, j - 1, 0})
 			}
 		case strings.HasPrefix(strings.TrimSpace(lines[i]), "//line ") && ci == 0 && ni > 0:
-			cs = append(cs, layoutCandidate{"line-directive-col1-in-indented-code", i, j - 1})
+			cs = append(cs, layoutCandidate{"line-directive-col1-in-indented-code", i, j - 1, 0})
+		}
+	}
+	// a trailing comment on the line that closes a multi-line raw string literal: inside an
+	// aligned block (specs, fields, key-value elements) gofmt separates it with one blank, the
+	// restored positions make go/printer's tabwriter pad it with two
+	open := false
+	for i, l := range lines {
+		n := strings.Count(l, "`")
+		wasOpen := open
+		if n%2 == 1 {
+			open = !open
+		}
+		if wasOpen && !open {
+			k := strings.LastIndex(l, "`")
+			rest := l[k+1:]
+			if j := strings.Index(rest, "//"); j >= 0 {
+				cs = append(cs, layoutCandidate{"trailing-comment-after-multiline-raw-string", i, i, k + 1 + j})
+			} else if j := strings.Index(rest, "/*"); j >= 0 {
+				cs = append(cs, layoutCandidate{"trailing-comment-after-multiline-raw-string", i, i, k + 1 + j})
+			}
 		}
 	}
 	return cs
@@ -186,13 +207,21 @@ func c01LayoutPredicates(src []byte) []string {
 	sort.Strings(names)
 	cures := func(drop []layoutCandidate) bool {
 		del := map[int]bool{}
+		cut := map[int]int{}
 		for _, c := range drop {
+			if c.col > 0 {
+				cut[c.from] = c.col
+				continue
+			}
 			for k := c.from; k <= c.to; k++ {
 				del[k] = true
 			}
 		}
 		var kept []string
 		for k, l := range lines {
+			if col, ok := cut[k]; ok && col <= len(l) {
+				l = strings.TrimRight(l[:col], " \t")
+			}
 			if !del[k] {
 				kept = append(kept, l)
 			}
